@@ -2040,3 +2040,173 @@ class CompFamily:
 
 
 REGISTRY["C19"] = CompFamily("C19")
+
+
+# ---------------------------------------------------------------------------
+# RIB critical-section family (C02 / C03 / C06 / C08 / C11 under overlapping RIB calls): GribiRIBCS / _MC / Trace - the
+# gate-to-gate segments of concurrent AddEntry / DeleteEntry / Flush / AddNetworkInstance calls, every interleaving
+
+def ribcs_cfg(Scns, Serial=False, EmitOn=False, view=True, inv=True):
+    lines = ["SPECIFICATION MCSpec", "CONSTANTS", '  NIs = {"DEFAULT", "vrf1"}', f"  Serial = {str(Serial).upper()}",
+             f"  Scns <- {Scns}" if isinstance(Scns, str) else "  Scns = {" + ", ".join(str(s) for s in Scns) + "}", f"  EmitOn = {str(EmitOn).upper()}"]
+    if view and not EmitOn:
+        lines.append("VIEW View")
+    if inv:
+        lines.append("INVARIANTS QuiescentConsistent")
+    if EmitOn:
+        lines.append("INVARIANTS Emit")
+    lines.append("CHECK_DEADLOCK FALSE")
+    return "\n".join(lines) + "\n"
+
+
+def ribcs_attr(comp):
+    return {"ribcsTables": {"C01", "C02", "C11"}, "ribcsCounters": {"C03", "C11"}, "ribcsPending": {"C02", "C06", "C11"},
+            "ribcsResult": {"C06", "C02", "C11"}, "ribcsReturn": {"C06", "C11"}, "ribcsGate": {"C11"}, "ribcsNotEnabled": {"C11", "C02", "C03", "C06"},
+            "ribcsHang": {"C11", "C08", "C10"}, "ribcsFlushError": {"C08", "C11"}}.get(comp, set())
+
+
+class RibCSFamily:
+    FAMILY = "ribcs"
+    # scenarios whose interleavings are few enough to be replayed one by one at the quick tier
+    SMALL = (1, 2, 4, 5, 6, 8, 9, 11, 12, 13)
+    LARGE = (3, 7, 10)
+
+    def __init__(self, prop):
+        self.prop = prop
+
+    def run(self, ctx):
+        res = Result()
+        quick = ctx.tier == "quick"
+        ctx.build_vh()
+        mcs = []
+        # the specification itself: with calls that do not overlap every invariant holds in every scenario ...
+        run = require_ok(ctx.tlc("GribiRIBCS_MC", None, name="mc-ribcs-serial", workers=vlib.NCPU, cfg_text=ribcs_cfg("AllScns", Serial=True), timeout=3000, heap="16g"),
+                         "model checking GribiRIBCS_MC (Serial)")
+        states, trans = run.distinct, run.generated
+        mcs.append({"module": "GribiRIBCS_MC", "constants": {"Scns": "AllScns (13 + 144 pairs)", "Serial": True}, "invariant": "QuiescentConsistent holds",
+                    "distinct_states": run.distinct, "generated": run.generated, "secs": round(run.secs, 1)})
+        # ... and at the code's grain of atomicity TLC finds the interleavings that break them (the open findings)
+        run = ctx.tlc("GribiRIBCS_MC", None, name="mc-ribcs-conc", workers=vlib.NCPU, cfg_text=ribcs_cfg(self.SMALL, Serial=False), timeout=3000, heap="16g")
+        if run.rc not in (0, 12) or (run.error and "Invariant" not in (run.error or "") and not run.violated):
+            raise Infra(f"model checking GribiRIBCS_MC (overlapping calls): rc={run.rc} error={run.error}\n{run.tail()}")
+        mcs.append({"module": "GribiRIBCS_MC", "constants": {"Scns": list(self.SMALL), "Serial": False},
+                    "invariant": "QuiescentConsistent violated (expected: the code's critical sections are smaller than a call)" if run.violated else "QuiescentConsistent holds",
+                    "distinct_states": run.distinct, "generated": run.generated, "secs": round(run.secs, 1)})
+        # schedules
+        walks = []
+        run = require_ok(ctx.tlc("GribiRIBCS_MC", None, name="emit-ribcs", workers=1, cfg_text=ribcs_cfg(self.SMALL, EmitOn=True, inv=False), timeout=3000, heap="16g"),
+                         "exhaustive schedule emission (GribiRIBCS_MC)")
+        walks += run.emitted()
+        nexh = len(walks)
+        for i, (scns, num) in enumerate([(self.LARGE, 400 if quick else 12000), ("PairScns", 1500 if quick else 60000)]):
+            run = require_ok(ctx.tlc("GribiRIBCS_MC", None, name="sim-ribcs", simulate=num, depth=100, seed=ctx.seed * 100 + i,
+                                     cfg_text=ribcs_cfg(scns, EmitOn=True, inv=False), timeout=3000), "schedule simulation (GribiRIBCS_MC)")
+            walks += run.emitted()
+        walks = list(dict.fromkeys(walks))
+        wf = os.path.join(ctx.work, "cswalks.txt")
+        with open(wf, "w") as f:
+            for w in walks:
+                f.write("@@" + w + "\n")
+        trace = os.path.join(ctx.work, "cstrace.ndjson")
+        p = ctx.run_vh(["ribcs-run", "-in", wf, "-out", trace], timeout=3000)
+        if p.returncode != 0:
+            raise Infra("vh ribcs-run failed: " + p.stdout[-2000:] + p.stderr[-4000:])
+        info = json.loads(p.stdout.strip().splitlines()[-1])
+        cfg = ('SPECIFICATION CTSpec\nCONSTANTS\n  NIs = {"DEFAULT", "vrf1"}\n  Serial = FALSE\n  TraceFile = "trace.ndjson"\n'
+               'POSTCONDITION TraceAccepted\nCHECK_DEADLOCK FALSE\n')
+        run = ctx.tlc("GribiRIBCSTrace", None, name="validate-ribcs", workers=1, cfg_text=cfg, extra_files={trace: "trace.ndjson"}, timeout=3000, heap="12g")
+        matched, total, mism = parse_trace_report(run)
+        if matched != total:
+            raise Infra(f"trace validation stopped at line {matched + 1} of {total}\n" + run.tail())
+        segs = Segments(trace, '{"err":"","ev":"cstart"')
+        if not segs.starts:
+            raise Infra("no walk was replayed")
+        known = {k.get("id"): k for k in vlib.load_known() if k.get("status") == "open"}
+        kfcount = collections.Counter()
+        byseg = collections.OrderedDict()
+        other = collections.Counter()
+        unreal = 0
+        for (ln, ev, comps) in mism:
+            if any(c in ("ribcsSlow", "ribcsSetup") for c in comps):
+                raise Infra(f"replay inconclusive at trace line {ln}: {comps} (slow machine or set-up failure)")
+            if comps == ["ribcsStall"]:
+                unreal += 1      # a step that cannot run while the others are parked; a hang shows at the end of the walk
+                continue
+            kf = [c[3:] for c in comps if c.startswith("KF:")]
+            rest = [c for c in comps if not c.startswith("KF:") and c != "ribcsStall"]
+            for i in kf:
+                if i in known:
+                    if known[i].get("property") == self.prop:
+                        kfcount[i] += 1
+                else:
+                    rest.append("unlisted:" + i)
+            mine = [c for c in rest if c.startswith("unlisted:") or self.prop in ribcs_attr(c)]
+            for c in rest:
+                if c not in mine:
+                    other["/".join(sorted(ribcs_attr(c))) + ":" + c] += 1
+            if mine:
+                byseg.setdefault(segs.segment_of(ln), []).append((ln, ev, mine))
+        if unreal > max(5, len(segs.starts) // 20):
+            raise Infra(f"{unreal} of {len(segs.starts)} schedules cannot be realised on this code although nothing hangs: the lock structure GribiRIBCS describes is not the code's")
+        for i, n in kfcount.items():
+            res.known.append(f"{known[i]['line']} ({n} occurrence(s) in this run)")
+        for k, n in other.items():
+            res.notes.append(f"{n} deviation(s) attributed to {k} (not to {self.prop})")
+        for s0, items in list(byseg.items())[:3]:
+            ln, ev, mine = items[0]
+            evs = segs.lines(s0, ln)
+            rp = os.path.join(vlib.ROOT, "replays", f"{self.prop}-ribcs-{vlib.sha(json.dumps(evs, sort_keys=True))}.json")
+            json.dump({"property": self.prop, "family": self.FAMILY, "seed": ctx.seed, "tier": ctx.tier,
+                       "first_deviation": {"trace_line": ln, "event": ev, "components": mine},
+                       "scenario": {k: evs[0].get(k) for k in ("scn", "init", "progs", "fprog")},
+                       "schedule": [{k: e.get(k) for k in ("c", "a", "site", "gid")} for e in evs if e.get("ev") == "cstep"],
+                       "failing_event": evs[-1]}, open(rp, "w"), indent=1)
+            last = evs[-1]
+            res.violations.append({"replay": rp, "what": f"overlapping RIB calls, scenario {evs[0].get('scn')}, step {last.get('i', 'end')} ({last.get('a', last.get('ev'))} {last.get('c', '')}): "
+                                                         f"specification and implementation differ in {mine}" + (f"; left blocked: {last.get('left')}" if last.get("left") else "")})
+        anom = collections.Counter()
+        nontriv = 0
+        sample = []
+        with open(trace) as fh:
+            seen_callers, hit = set(), False
+            for line in fh:
+                e = json.loads(line)
+                if e["ev"] == "cstart":
+                    inflight, hit = set(), False
+                elif e["ev"] == "cstep":
+                    if not e["returned"]:
+                        if inflight - {e["c"]}:
+                            hit = True
+                        inflight.add(e["c"])
+                    else:
+                        inflight.discard(e["c"])
+                    if len(sample) < 12 and nontriv == 0:
+                        sample.append({k: e.get(k) for k in ("c", "a", "site")})
+                elif e["ev"] == "cend":
+                    if hit:
+                        nontriv += 1
+                    for a in e.get("anom") or []:
+                        anom[a] += 1
+        res.coverage = {
+            "states": states, "transitions": trans, "exhaustive": False, "traces_validated_against_impl": len(segs.starts), "evaluations": total,
+            "distinct_nontrivial": nontriv, "tlc_exhaustive_schedules": nexh, "tlc_emitted_schedules": len(walks),
+            "schedules_ending_in_a_state_the_specification_itself_flags": dict(anom), "schedules_not_realisable": unreal,
+            "rule": ("one case = one interleaving of the gate-to-gate segments of 2-3 goroutines calling AddEntry / DeleteEntry / Flush / AddNetworkInstance on one real "
+                     "rib.RIB, generated by TLC from GribiRIBCS_MC and replayed through the gates of rib/rib.go; after every segment the tables, reference counters, held "
+                     "operations, gate reached and call result are compared with the specification; non-trivial = some call ran a segment while another was parked inside its own call"),
+            "samples": [sample] if sample else [["none"]], "driver": info, "model_checking": mcs,
+        }
+        res.assumptions = ["entries are reduced to what resolution and deletion protection read (keys and references); payloads are fixed",
+                           "a goroutine parked at a gate holds no lock except the Flush caller (the locks of the instances it has emptied); where a schedule asks a goroutine to take a "
+                           "lock the specification says is free and it cannot, the step is recorded as not realisable and only a goroutine still blocked after every gate was opened counts as a hang",
+                           "the order in which the code retries held operations (map order) is the code's choice: a walk is cut where it departs from the schedule's assumption"]
+        return res
+
+    def replay(self, ctx, path):
+        raise Infra("overlapping RIB calls are replayed by re-running the check with the recorded seed")
+
+
+for _p in ("C02", "C03", "C06", "C11"):
+    _old = REGISTRY[_p]
+    REGISTRY[_p] = CompositeFamily(_p, (_old.parts if isinstance(_old, CompositeFamily) else [_old]) + [RibCSFamily(_p)])
+REGISTRY["C08"] = CompositeFamily("C08", REGISTRY["C08"].parts + [RibCSFamily("C08")])
